@@ -14,17 +14,19 @@
    (parse_object / parse_string with defaults=False: no subcommand section is created by merging defaults, and only then does
    "Remove extra subcommand settings" depend on how many sections were given).  Every theorem is for ALL modes.
 
-   FULL STATEMENT (false of the unchanged code, see the three `_refuted` theorems):
+   FULL STATEMENT (false of the unchanged code, see C06_discarded_section_refuted):
      forall md fuel p cfg, run md fuel p cfg = Ok -> undeclared md p cfg = []. *)
 From JV Require Import Lib.Base Model.C06Validate Spec.C06Spec Proofs.C06Proofs.
 
-(* What holds without any guard, for ALL parsers, ALL configuration trees, any fuel: an accepted configuration has no
-   undeclared key at any nesting level (top level, dotted groups, dataclass fields, init_args of a class, list items,
-   the section of the subcommand in force) other than keys of the three listed finding classes, which und_top leaves
-   out when its flags are set: (sl) a key whose value is a mapping without any leaf, (sd) a key in the section of a
-   subcommand that is not in force, (sc) a key beside class_path in a class value without init_args. *)
+(* What holds for ALL parsers, ALL configuration trees, any fuel: an accepted configuration has no undeclared key at any
+   nesting level (top level, dotted groups, dataclass fields, init_args of a class, list items, the section of the
+   subcommand in force) — INCLUDING keys whose value is a mapping without any leaf ({} / {a: {}}: refused by the lenient
+   _apply_actions pre-pass since a58b0fc) and keys beside class_path in a class value (refused as "Not a valid subclass" since
+   56814dd); both were guard classes of this theorem (flags sl / sc of und_top, now false) until the library was repaired and
+   the model followed.  The one exception left (sd) is a key in the section of a subcommand that is not in force: the parse
+   discards such a section unvalidated (documented behaviour, open finding). *)
 Theorem C06_accepted_has_no_undeclared_key :
-  forall md fuel p cfg, run md fuel p cfg = Ok -> und_top md true true true p cfg = [].
+  forall md fuel p cfg, run md fuel p cfg = Ok -> und_top md false true false p cfg = [].
 Proof. exact accept_no_undeclared. Qed.
 Print Assumptions C06_accepted_has_no_undeclared_key.
 
@@ -64,9 +66,17 @@ Theorem C06_required_present_with_links :
 Proof. exact accept_required_with_links. Qed.
 Print Assumptions C06_required_present_with_links.
 
+(* The list-append spelling: a declared List[...] key carried as "<key>+" (run_append, apps = the paths spelled that way) has its
+   items checked by apply_appends at merge time in addition to everything else, so it accepts no more than the plain spelling:
+   every acceptance theorem above holds for run_append as well. *)
+Theorem C06_append_spelling_accepts_no_more :
+  forall md fuel p cfg apps, run_append md fuel p cfg apps = Ok -> run md fuel p cfg = Ok.
+Proof. exact run_append_ok. Qed.
+Print Assumptions C06_append_spelling_accepts_no_more.
+
 (* The error branch, in part: an unknown-key error (any of the three NSKeyError variants, from any nesting level) is raised
    only when the configuration does contain a key the parser does not define.  That the key NAMED by the error is such a key
-   is not proved (false for the class-3 finding); it is checked case by case by the correspondence. *)
+   is not proved; it is checked case by case by the correspondence. *)
 Theorem C06_unknown_key_error_only_if_undeclared :
   forall md fuel p cfg ctx fam key,
     wf_parser p = true -> run md fuel p cfg = Err (EUnknown ctx fam key) -> undeclared md p cfg <> [].
@@ -100,22 +110,23 @@ Example C06_example_named_without_section :
   forall md, exists ks, run md 24 ex_p ex_c_nosec = Err (EMissing [] ks) /\ missing_required md ex_p ex_c_nosec = map (map K) ks.
 Proof. exact example_named_without_section. Qed.
 
-(* ---------- the findings: the full statement is false of the unchanged code ---------- *)
-(* parser with one optional argument y; the configuration {zz: {}} is accepted although zz is not declared *)
-Theorem C06_empty_mapping_refuted :
-  exists md fuel p cfg, run md fuel p cfg = Ok /\ undeclared md p cfg <> [] /\ guard_class md p cfg = 1%N.
-Proof. exact empty_mapping_refuted_ex. Qed.
-Print Assumptions C06_empty_mapping_refuted.
+(* the two repaired findings: a leafless mapping under an undeclared key (also one level down, shallowest first) and a foreign
+   key beside class_path are rejected, the error names the key, and both inputs are inside the guard now *)
+Example C06_example_empty_mapping_rejected :
+  run MDefaults 24 w1_p w1_c = Err (EUnknown [] FKey [s_zz]) /\ spec_ok MDefaults w1_p w1_c (RejUnknown [s_zz]) = true /\
+  run MDefaults 24 w1_p w1_c2 = Err (EUnknown [] FKey [s_zz; s_w]) /\ spec_ok MDefaults w1_p w1_c2 (RejUnknown [s_zz; s_w]) = true /\
+  guard_class MDefaults w1_p w1_c = 0%N.
+Proof. exact example_empty_mapping_rejected. Qed.
 
+Example C06_example_class_path_extra_rejected :
+  run MDefaults 24 w3_p w3_c = Err (EBadSpec [] [s_w] [s_zz]) /\
+  undeclared MDefaults w3_p w3_c = [[K s_w; K s_zz]] /\ spec_ok MDefaults w3_p w3_c (RejUnknown [s_zz]) = true /\
+  guard_class MDefaults w3_p w3_c = 0%N.
+Proof. exact example_class_path_extra_rejected. Qed.
+
+(* ---------- the open finding: the full statement is false of the unchanged code ---------- *)
 (* subcommands fit / test; {subcommand: fit, fit: {u: 1}, test: {zz: 7}} is accepted although test.zz is not declared *)
 Theorem C06_discarded_section_refuted :
   exists md fuel p cfg, run md fuel p cfg = Ok /\ undeclared md p cfg <> [] /\ guard_class md p cfg = 2%N.
 Proof. exact discarded_section_refuted_ex. Qed.
 Print Assumptions C06_discarded_section_refuted.
-
-(* class-typed argument w; {w: {class_path: C1, zz: 7}} is rejected, but the error names class_path, not zz *)
-Theorem C06_class_path_misnamed_refuted :
-  exists md fuel p cfg ctx fam key,
-    run md fuel p cfg = Err (EUnknown ctx fam key) /\ spec_ok md p cfg (RejUnknown key) = false /\ guard_class md p cfg = 3%N.
-Proof. exact class_path_misnamed_refuted_ex. Qed.
-Print Assumptions C06_class_path_misnamed_refuted.
